@@ -99,18 +99,19 @@ Proof.
 Qed.
 
 (* ... and therefore, single-threaded: slot assigned exactly once over the whole trace, notify ran exactly once *)
-Theorem block_completes_once h i k :
-  let st := fst (run1 init h) in
+Theorem block_completes_once b h i k :
+  valid_base b ->
+  let st := fst (run1 (init_at b) h) in
   fault st = 0 -> nth_error (cores st) i = Some k ->
   returned (snd (step1 st (EBlock i))) -> fault (fst (step1 st (EBlock i))) = 0 ->
-  let tr := trace1 (h ++ [EBlock i]) in
+  let tr := trace1_at b (h ++ [EBlock i]) in
   count_complete i tr = 1%nat /\ count_notify i tr = b2n (k_hasnotify k).
 Proof.
-  intros st Hf Hk Hret Hf1 tr.
-  pose proof (rel_trace1 h) as R. fold st in R.
-  pose proof (rel_run1 [EBlock i] st (trace1 h) R) as R2.
-  assert (Htr : tr = trace1 h ++ snd (run1 st [EBlock i])).
-  { unfold tr, trace1. rewrite run1_app. unfold st. destruct (run1 init h) as [s0 o0]. cbn [fst snd].
+  intros Hb st Hf Hk Hret Hf1 tr.
+  pose proof (rel_trace1 b h Hb) as R. fold st in R.
+  pose proof (rel_run1 _ [EBlock i] st (trace1_at b h) R) as R2.
+  assert (Htr : tr = trace1_at b h ++ snd (run1 st [EBlock i])).
+  { unfold tr, trace1_at. rewrite run1_app. unfold st. destruct (run1 (init_at b) h) as [s0 o0]. cbn [fst snd].
     destruct (run1 s0 [EBlock i]); reflexivity. }
   rewrite <- Htr in R2.
   assert (E1 : run1 st [EBlock i] = (fst (step1 st (EBlock i)), snd (step1 st (EBlock i)) ++ [])).
@@ -139,7 +140,7 @@ Proof.
     split; [unfold fin; destruct (c_inflight c1); simpl; auto|]. split; [apply fin_not_inflight|].
     (* the notify flag is part of the core and no step changes it *)
     assert (Hh : c_hasnotify c1 = k_hasnotify k).
-    { destruct (step_good _ _ _ _ Es (r_ok _ _ R)) as [_ S].
+    { destruct (step_good _ _ _ _ Es (r_ok _ _ _ R)) as [_ S].
       assert (exists k1, nth_error (cores s1) i = Some k1 /\ k_hasnotify k1 = k_hasnotify k) as [k1 [Hk1' Hh]].
       { destruct S as [Hcs _ _ | nf _ _ Hcs | _ _ Hcs | x k' y _ _ _ _ _ _ Hcs | x k' _ _ _ _ Hcs | x _ _ Hcs]; rewrite Hcs.
         - eauto.
@@ -151,6 +152,6 @@ Proof.
       unfold cores in Hk1'. rewrite nth_error_map, Ec1 in Hk1'. inversion Hk1'; subst. exact Hh. }
     unfold fin. destruct (c_inflight c1); simpl; exact Hh. }
   destruct Hc' as [c' (Hn' & Hcc & Hci & Hch)].
-  pose proof (r_counts _ _ R2 i) as Hcnt. unfold cores in Hcnt. rewrite nth_error_map, Hn' in Hcnt. simpl in Hcnt.
+  pose proof (r_counts _ _ _ R2 i) as Hcnt. unfold cores in Hcnt. rewrite nth_error_map, Hn' in Hcnt. simpl in Hcnt.
   rewrite Hcc, Hci, Hch in Hcnt. destruct Hcnt as [C1 C2]. split; [exact C1|]. destruct (k_hasnotify k); simpl in *; lia.
 Qed.
